@@ -69,7 +69,7 @@ type scen struct {
 	fixFunds map[uint64]map[string]sdk.Int
 
 	// reference model
-	cur     uint64                       // id of the current month's IprpcReward
+	cur     uint64                        // id of the current month's IprpcReward
 	funds   map[uint64]map[string]sdk.Int // month id -> spec -> funds
 	cu      map[string]uint64             // "spec|provider index" -> IPRPC CU served this month
 	months  int
@@ -191,7 +191,14 @@ func (s *scen) Fork() func() {
 	for k, v := range s.cu {
 		cu[k] = v
 	}
-	return func() { r(); s.cur = cur; s.funds = funds; s.cu = cu; s.months = months; s.session = session }
+	return func() {
+		r()
+		s.cur = cur
+		s.funds = funds
+		s.cu = cu
+		s.months = months
+		s.session = session
+	}
 }
 
 func (s *scen) modelString() string {
